@@ -235,7 +235,7 @@ class C08(core.PropertyCheck):
         ]
 
     # ---- generation ----
-    LABELS = ["a", "b", "a b", "A", "intro", "x.y", "A B"]
+    LABELS = ["a", "b", "a b", "A", "intro", "x.y", "A B", "a-b", "x/y"]   # "a b"/"a-b", "x.y"/"x/y": distinct names, one sanitised id
     OBJS = {
         ("mongodb", "method"): ["db.coll.find", "find", "db.coll.Find", "a"],
         ("mongodb", "setting"): ["net.port", "port", "a"],
@@ -634,6 +634,10 @@ class C08(core.PropertyCheck):
                         return f"{where} points to page {slug!r} which is not part of the build"
                     if anchor not in [t["html_id"] for t in tp["targets"]]:
                         return f"{where} points to {slug}#{anchor} but no target on that page carries this id (dangling link)"
+                    carriers = [t for t in tp["targets"] if t["html_id"] == anchor]
+                    if len(carriers) > 1 and len({tuple(tuple(i["ids"]) for i in t["idents"]) for t in carriers}) > 1:
+                        return (f"{where} points to {slug}#{anchor}, an id that {len(carriers)} different targets of that page carry: "
+                                "the link lands on whichever comes first")
                     mine = [d for d in local if d[0] == slug and d[1] == anchor]
                     if not mine:
                         return f"{where} points to {slug}#{anchor}, which is not a definition of that name (definitions: {[(d[0], d[1]) for d in local]})"
